@@ -75,7 +75,7 @@ Proof. exact EvictHost.evict_sound_full. Qed.
 Theorem C07_hosting_poll_keeps_its_waker_registered : forall fuel c w fs H fs' H' x me mv k,
   c < length (cmds H) -> EvictHost.host_gt c fs -> EvictHost.waker_in c w -> EvictHost.OrdH H ->
   poll fuel c w fs H = Some (Pend fs', H') -> f_leaf fs' = LHost x me mv k ->
-  c < x /\ (c_atomic (gcmd x H') = Some w \/ woken_of w H') /\ EvictHost.OrdH H'.
+  c < x /\ (c_atomic (gcmd x H') = Some w \/ EvictHost.wokenx w H') /\ EvictHost.OrdH H'.
 Proof. exact EvictHost.poll_registers_host. Qed.
 Theorem C07_order_invariant_at_start : forall c,
   EvictHost.OrdH (snd (new_cmd (cx_name (compile c)) None [] (cx_main (compile c)) (cx_extra (compile c)) H0)).
